@@ -136,6 +136,15 @@ Theorem C14_zero_pilot : forall cap c p0 maxP nl ts V T noise, 0 < V -> 0 < T ->
 Proof. exact L2_charge_zero_pilot. Qed.
 Print Assumptions C14_zero_pilot.
 
+(* scope: the legacy 'stepwise' calculation (stepwise_after = the _current_charge written by
+   L2_charge_stepwise, noise off) is NOT a flow — the class documents it as a less accurate
+   approximation; 60 min from 45 kWh gives 48.5 kWh, 30 min twice 47.8875 kWh *)
+Theorem C14_stepwise_does_not_split :
+  stepwise_after 50 7 (4/5) 45 32 208 60
+  <> stepwise_after 50 7 (4/5) (stepwise_after 50 7 (4/5) 45 32 208 30) 32 208 30.
+Proof. exact c14_stepwise_does_not_split. Qed.
+Print Assumptions C14_stepwise_does_not_split.
+
 (* ---------- reset ---------- *)
 (* reset() sets charge := initial charge, power := 0 *)
 Theorem C14_reset_default : forall cap c p init,
